@@ -118,7 +118,8 @@ impl<'a> From<GpkgInterfaceEnt<'a>> for InterfaceEnt<'a> {
 
 impl<'a> GpkgInterfaceEnt<'a> {
     pub fn from_any(ent: EntRef<'a>) -> Option<Self> {
-        match ent.actual_kind() {
+        // Only the declared interface items are generics, not aliases that denote them
+        match ent.kind() {
             AnyEntKind::Type(Type::Interface) => {
                 Some(GpkgInterfaceEnt::Type(TypeEnt::from_any(ent).unwrap()))
             }
